@@ -260,7 +260,7 @@ class FusionEngineDecoder:
             if cls is not None:
                 contents = cls()
                 try:
-                    contents.unpack(buffer=self._buffer, offset=MessageHeader.calcsize())
+                    contents.unpack(buffer=self._buffer[:self._msg_len], offset=MessageHeader.calcsize())
                 except Exception as e:
                     # unpack() may fail if the payload length in the header differs from the length expected by the
                     # class, the payload contains an illegal value, etc.
